@@ -23,7 +23,8 @@ def strip_name(n):
 
 
 def _worker(args):
-    qual, timeout_ms, keep_smt = args
+    qual, timeout_ms, keep_smt = args[:3]
+    only_case = args[3] if len(args) > 3 else None
     from pyvc.load import build
     from pyvc.verify import verify_function
     from pyvc.concretise import concretise_args
@@ -33,7 +34,8 @@ def _worker(args):
     except NameError:
         _W = build()
         w, reg, stubs = _W
-    r = verify_function(w, reg, stubs, qual, timeout_ms=timeout_ms, concretise=concretise_args, keep_smt=keep_smt)
+    r = verify_function(w, reg, stubs, qual, timeout_ms=timeout_ms, concretise=concretise_args, keep_smt=keep_smt,
+                        only_case=only_case)
     return r
 
 
@@ -103,7 +105,15 @@ def run_property(pid, tier='quick', seed=0):
     lines = []
     fault = None
     # ------------------------------------------------------------------ deductive part
-    jobs = [(q, timeout_ms, True) for q in prop.functions]
+    from pyvc.load import build
+    _w, _reg, _stubs = build()
+    jobs = []
+    for q in prop.functions:
+        c = _reg.get(q)
+        if c is not None and c.ncases:
+            jobs.extend((q, timeout_ms, True, i) for i in range(c.ncases))
+        else:
+            jobs.append((q, timeout_ms, True))
     ljobs = [(m, n, timeout_ms) for (m, n) in prop.lemmas]
     results, lemma_results = [], []
     nproc = max(1, min(16, len(jobs) + len(ljobs)))
